@@ -42,7 +42,32 @@ SpecialNames ==
     \cup UNION {{AsciiPattern(1, n - Len(ch)) \o ch : n \in {63, 64, 65, 66}} : ch \in {<<32>>, <<9>>, <<10>>, EncodeScalar(160), EncodeScalar(8205)}}
     \cup {<<32>> \o AsciiPattern(1, n) : n \in {62, 63, 64}}
 
-Names == StraddleNames \cup LengthNames \cup SpecialNames
+\* RUNS of characters that belong together (a language tag, an emoji sequence, a flag, a stack of
+\* combining marks): the cut at every character boundary inside the run and just around it, and
+\* the run as the END of the name -- short, and longer than the whole field
+RECURSIVE Cat(_)
+Cat(ss) == IF ss = << >> THEN << >> ELSE Head(ss) \o Cat(Tail(ss))
+Scal(cps) == Cat([i \in 1..Len(cps) |-> EncodeScalar(cps[i])])
+Runs == {
+    Scal(<<917505, 917605, 917614, 917549, 917589, 917587>>),            \* language tag: U+E0001 e n - U S
+    Scal(<<917505, 917605, 917614>>) \o EncodeScalar(8207),              \* ... followed by a direction mark
+    Scal(<<128104, 8205, 128105, 8205, 128103>>),                        \* family: man ZWJ woman ZWJ girl
+    Scal(<<127482, 127480, 127465, 127466>>),                            \* two flags (regional indicators)
+    Scal(<<127988, 917607, 917602, 917605, 917614, 917607, 917631>>),    \* subdivision flag: black flag + tags + cancel
+    Scal(<<101, 769, 770, 771, 772>>),                                   \* e with four combining marks
+    Scal(<<10084, 65039, 8205, 128293>>),                                \* heart VS16 ZWJ fire
+    Scal(<<4352, 4449, 4520>>) }                                         \* conjoining Hangul jamo
+\* byte offsets at which a run's characters start (0-based), plus its length
+RECURSIVE StartsOf(_, _)
+StartsOf(b, i) == IF i > Len(b) THEN {Len(b)} ELSE {i - 1} \cup StartsOf(b, i + CharLenAt(b, i))
+RunNames ==
+    UNION {{AsciiPattern(1, pad) \o r \o AsciiPattern(2, 6) : pad \in {p \in {64 - o : o \in StartsOf(r, 1)} \cup {63, 65} : p >= 0}} : r \in Runs}
+    \cup UNION {{AsciiPattern(1, pad) \o r : pad \in {0, 10, 50, 60, 63}} : r \in Runs}
+    \* a language tag whose tag characters alone exceed the field
+    \cup {AsciiPattern(1, pad) \o EncodeScalar(917505) \o RepChar(EncodeScalar(917605), n) \o tail :
+             pad \in {0, 5, 60}, n \in {0, 1, 14, 15, 16, 17, 20}, tail \in {<< >>, EncodeScalar(8207)}}
+
+Names == StraddleNames \cup LengthNames \cup SpecialNames \cup RunNames
 
 TCase(tn, sv, tag) ==
     TypeDecCase(tn, HostEncTy(TypeByName(tn), sv, F), tag) @@ [sv |-> <<sv>>]
@@ -91,7 +116,7 @@ MC_Cases == NameCases \cup IconCases \cup IllFormedCases
 \* the lossy text members inside complete requests (C01: "apart from the documented lossy members")
 C01_Cases ==
     {SentCase(1, [McReqMin EXCEPT !.user = [UserMin EXCEPT !.name = <<n>>, !.displayName = <<n>>],
-                                       !.rp = [RpMin EXCEPT !.name = <<n>>]], "mc.names", F) : n \in StraddleThin \cup LengthNames}
+                                       !.rp = [RpMin EXCEPT !.name = <<n>>]], "mc.names", F) : n \in StraddleThin \cup LengthNames \cup SpecialNames \cup RunNames}
     \cup {SentCase(10, [CmReqMin EXCEPT !.subCommand = 7,
                                         !.subCommandParams = <<[CmParamsMin EXCEPT !.user = <<[UserMin EXCEPT !.name = <<n>>, !.displayName = <<n>>]>>]>>],
                    "cm.updateUserInformation.names", F) : n \in StraddleThin}
@@ -100,7 +125,7 @@ C01_Cases ==
 
 \* the part of this corpus that C04 replays (capacity handling of text members must not crash)
 C04_Cases ==
-    {TCase("User", [UserMin EXCEPT !.name = <<n>>], "user.name") : n \in StraddleNames}
+    {TCase("User", [UserMin EXCEPT !.name = <<n>>], "user.name") : n \in StraddleNames \cup SpecialNames \cup RunNames}
     \cup {SentCase(1, [McReqMin EXCEPT !.user = [UserMin EXCEPT !.name = <<n>>, !.displayName = <<n>>],
                                        !.rp = [RpMin EXCEPT !.name = <<n>>]], "mc.names", F) : n \in StraddleThin}
     \cup {SentCase(10, [CmReqMin EXCEPT !.subCommand = 7,
